@@ -219,7 +219,7 @@ class QTomography:
         seed : int, optional
             new seed, None by default.
         """
-        if seed:
+        if seed is not None:
             self._experiment.reset_seed_data(seed)
         else:
             self._experiment.reset_seed_data(self._experiment.seed_data)
